@@ -6,5 +6,5 @@ pub mod upd_model;
 pub mod update;
 
 pub fn all() -> Vec<CheckDef> {
-    vec![update::def_c12(), c16::def(), c17::def()]
+    vec![update::def_c12(), update::def_c14(), c16::def(), c17::def()]
 }
